@@ -24,6 +24,8 @@ func c18Stream(rng *rand.Rand, fileType int) *Stream {
 	s.Def(7, arch, 21, []FieldDef{{0, 1, 0}, {3, 4, 0x86}}, nil)                                                   // event + data
 	s.Def(8, arch, 21, []FieldDef{{0, 1, 0}, {2, 2, 0x84}}, nil)                                                   // event + data16
 	s.Def(9, arch, 20, []FieldDef{{2, 2, 0x84}, {78, 4, 0x86}}, nil)                                               // source and destination both explicit
+	s.Def(10, arch, 19, []FieldDef{{110, 4, 0x86}, {14, 2, 0x84}, {42, 2, 0x84}}, nil)                             // lap: one enhanced field explicit, other sources legacy
+	s.Def(11, arch, 18, []FieldDef{{126, 4, 0x86}, {14, 2, 0x84}, {71, 2, 0x84}}, nil)                             // session: likewise
 	dist := rng.Intn(4096)
 	cyc := rng.Intn(256)
 	pow := rng.Intn(65536)
@@ -79,7 +81,14 @@ func c18Stream(rng *rand.Rand, fileType int) *Stream {
 				s.Data(8, append([]byte{ev}, u16(v16())...))
 			}
 		case 9:
-			s.Data(9, append(u16(v16()), wire(u32le(rng.Uint32()), arch)...))
+			switch rng.Intn(3) {
+			case 0:
+				s.Data(9, append(u16(v16()), wire(u32le(rng.Uint32()), arch)...))
+			case 1:
+				s.Data(10, append(append(wire(u32le(uint32(rng.Intn(100000))), arch), u16(v16())...), u16(v16())...))
+			default:
+				s.Data(11, append(append(wire(u32le(uint32(rng.Intn(100000))), arch), u16(v16())...), u16(v16())...))
+			}
 		}
 	}
 	return s
